@@ -40,7 +40,38 @@ SHADOW = [
     ('dotted-column-alias', 'SELECT p.id AS id, p.a AS `x.y` FROM int1.t1 AS p', False),
     ('dotted-column-name', 'SELECT p.id, p.`x.y`, p.`address.city` FROM int1.t4 AS p WHERE p.`x.y` IS NOT NULL', False),
     ('dotted-column-name-unqualified', 'SELECT `address.city`, id FROM int1.t4', False),
+    # qualified names in every clause the planner has to walk
+    ('having-no-group-qualified', 'SELECT count(*) AS n FROM int1.t1 HAVING count(int1.t1.id) > 0', False),
+    ('having-no-group-subquery', 'SELECT count(*) AS n FROM int1.t1 AS p HAVING count(*) >= (SELECT count(*) FROM int1.t2 AS s WHERE s.id > 100)', False),
+    ('having-group-qualified', 'SELECT int1.t1.a AS a, count(*) AS n FROM int1.t1 GROUP BY int1.t1.a HAVING max(int1.t1.id) > 1', False),
+    ('order-group-qualified', 'SELECT int1.t2.a AS a, count(*) AS n FROM int1.t2 GROUP BY int1.t2.a ORDER BY int1.t2.a DESC NULLS LAST', True),
+    ('case-func-qualified', 'SELECT CASE WHEN int1.t1.a > 1 THEN abs(int1.t1.a) ELSE coalesce(int1.t1.a, 0) END AS v, int1.t1.id AS id FROM int1.t1', False),
+    ('join-on-qualified', 'SELECT int1.t1.id AS id, int1.t2.d AS d FROM int1.t1 JOIN int1.t2 ON int1.t1.id = int1.t2.id AND int1.t2.a IS NOT NULL', False),
+    ('window-qualified', 'SELECT int1.t1.id AS id, sum(int1.t1.id) OVER (PARTITION BY int1.t1.a ORDER BY int1.t1.id) AS s FROM int1.t1', False),
+    ('between-in-qualified', 'SELECT int1.t1.id AS id FROM int1.t1 WHERE int1.t1.id BETWEEN 1 AND 4 AND int1.t1.a IN (1, 2, 3) AND NOT int1.t1.c IS NULL', False),
+    ('exists-qualified', 'SELECT p.id AS id FROM int1.t1 AS p WHERE EXISTS (SELECT 1 FROM int1.t2 WHERE int1.t2.id = p.id)', False),
+    ('target-subquery-qualified', 'SELECT p.id AS id, (SELECT max(int1.t2.a) FROM int1.t2) AS m FROM int1.t1 AS p', False),
     ('alias-eq-integration-later-scope', 'SELECT int1.id AS id FROM int1.t2 AS int1 WHERE int1.a IN (SELECT int1.t3.x FROM int1.t3 WHERE int1.t3.id > 0)', False),
+]
+REUSE = [
+    ['WITH t2 AS (SELECT p.id FROM int1.t1 AS p) SELECT t2.id AS id FROM t2',
+     'SELECT p.id AS id FROM t1 AS p JOIN t2 AS q ON p.id = q.id',
+     'SELECT p.id AS id FROM t2 AS p WHERE p.id IN (SELECT s.id FROM t3 AS s)',
+     'SELECT p.id AS id FROM t1 AS p UNION SELECT q.id AS id FROM t2 AS q',
+     'SELECT p.id AS id FROM t2 AS p JOIN t2 AS q ON p.id = q.a',
+     'SELECT s.id AS id FROM (SELECT p.id, p.a FROM t2 AS p) AS s WHERE s.a > 0',
+     'SELECT p.id AS id FROM t2 AS p UNION SELECT q.a AS id FROM t2 AS q',
+     'SELECT p.id AS id FROM t2 AS p WHERE p.a IN (SELECT q.id FROM t2 AS q)',
+     'WITH t2 AS (SELECT p.id FROM int1.t1 AS p) SELECT t2.id AS id FROM t2'],
+    ['SELECT t3.id AS id FROM (SELECT p.id FROM int1.t1 AS p) AS t3',
+     'SELECT p.id AS id FROM t3 AS p WHERE p.x > 0',
+     'SELECT s.id AS id FROM (SELECT q.id FROM t3 AS q) AS s JOIN t1 AS r ON s.id = r.id'],
+    ['WITH T1 AS (SELECT p.id FROM int1.t2 AS p), t3 AS (SELECT q.id FROM int1.t1 AS q) SELECT T1.id AS id FROM T1 JOIN t3 ON T1.id = t3.id',
+     'SELECT a.id AS id FROM int1.t1 AS a JOIN t3 AS b ON a.id = b.id',
+     'SELECT a.id AS id FROM t1 AS a WHERE a.id > (SELECT min(b.id) FROM t3 AS b)'],
+    ['SELECT p.id AS id FROM int1.t1 AS p WHERE p.id IN (SELECT s.id FROM int1.t2 AS s)',
+     'SELECT p.id AS id FROM int1.t1 AS p WHERE p.id IN (SELECT s.id FROM int1.t2 AS s)',
+     'SELECT p.a AS a FROM int1.t1 AS p WHERE p.id IN (SELECT s.id FROM int1.t2 AS s)'],
 ]
 NEGATIVE = [
     ('files', 'SELECT p.id AS id FROM files.t1 AS p WHERE p.id > 1'),
@@ -53,7 +84,7 @@ NEGATIVE = [
 
 
 def floors(tier):
-    return {'compared': 1500, 'len:shadow_shapes': 15, 'negative_variants': 50, 'len:catalog_forms': 4}
+    return {'compared': 1500, 'len:shadow_shapes': 25, 'negative_variants': 50, 'len:catalog_forms': 4}
 
 
 def make_db(state, attached=True):
@@ -195,6 +226,37 @@ def run_shard(ctx):
             acc.fail({'defect': kind_, 'shape': label}, det)
         elif len(acc.samples) < 5 and idx % 23 == 0:
             acc.sample({'text': text[:260], 'pushed_query': sql2[:260], 'catalog': desc, 'same_rows_and_names': True})
+    # one planner object planning a sequence of statements (a CTE / alias in an earlier one is named like a table a later
+    # one reads through the default namespace): each plan must be what a fresh planner produces, i.e. one fetch
+    from mindsdb_sql.planner.query_planner import QueryPlanner
+    for k, seq in enumerate(REUSE):
+        for form in (1, 2, 5):
+            if not ctx.mine(len(cases) + k * 3 + form):
+                continue
+            r = core.rng_for(ctx.seed, 'C11reuse', k, form)
+            kw, desc = fedgen.catalog(r, form=form)
+            kw['default_namespace'] = 'int1'
+            planner = QueryPlanner(**copy.deepcopy(kw))
+            for j, text in enumerate(seq):
+                acc.ev()
+                outs = []
+                for how in ('fresh', 'reused'):
+                    try:
+                        tree = parse_sql(text, 'mindsdb')
+                        plan = plan_query(tree, **copy.deepcopy(kw)) if how == 'fresh' else planner.from_query(tree)
+                        outs.append(monitors.struct(list(plan.steps)))
+                        if how == 'fresh' and (len(plan.steps) != 1 or type(plan.steps[0]).__name__ != 'FetchDataframeStep'):
+                            acc.fail({'defect': 'not-a-single-fetch', 'shape': 'reuse-seq', 'nsteps': min(len(plan.steps), 5)},
+                                     {'text': text, 'catalog': desc, 'plan': [repr(x)[:160] for x in plan.steps][:6]})
+                    except (PlanningException, NotImplementedError) as e:
+                        outs.append(('rejected', str(e)[:80]))
+                    except Exception as e:
+                        outs.append(('internal-error', type(e).__name__))
+                acc.count('reuse_compared')
+                if outs[0] != outs[1]:
+                    acc.fail({'defect': 'plan-depends-on-planner-history', 'shape': f'reuse-seq-{k}'},
+                             {'sequence': seq[:j + 1], 'catalog': desc, 'fresh': repr(outs[0])[:500], 'reused': repr(outs[1])[:500]})
+                    break
     # negative variants: must not be one whole-query fetch to a SQL integration
     if ctx.shard == 0:
         for k in range(20 if ctx.tier == 'quick' else 100):
